@@ -51,11 +51,18 @@ def errors(code, exact, coarse_stride, n_coarse, margin):
     return diff.max(axis=ax), np.abs(np.asarray(exact)[I]).max(axis=ax)
 
 
-def judge(e1, e2, scale, order, refine=2.0, lose=1):
+def roundoff_floor(d_fine):
+    """Round-off of an O(1) field differentiated twice with spacing d: the
+    (one-sided, up to 8th order) stencils have sum |w| up to ~50, each pass
+    multiplies the noise by that over d."""
+    return max(ABS_FLOOR, np.finfo(float).eps * (50.0 / d_fine) ** 2)
+
+
+def judge(e1, e2, scale, order, refine=2.0, lose=1, abs_floor=ABS_FLOOR):
     """Three-valued verdict for one (quantity, component class)."""
     if not np.isfinite(e1) or not np.isfinite(e2):
         return "violated", "non-finite error"
-    if e2 <= ABS_FLOOR and e1 <= 1e3 * ABS_FLOOR:
+    if e2 <= abs_floor and e1 <= 1e3 * abs_floor:
         return "held", "round-off floor"
     if scale <= 0 or not np.isfinite(scale):
         return "inconclusive", "vanishing scale"
@@ -73,7 +80,7 @@ def judge(e1, e2, scale, order, refine=2.0, lose=1):
 
 
 def compare_pair(code1, ex1, code2, ex2, n1, margin, order, scale_hint=0.0,
-                 by_class=True, lose=1):
+                 by_class=True, lose=1, abs_floor=ABS_FLOOR):
     """Judge one tensor quantity computed on grids n1 (coarse) and 2*n1-1.
 
     Returns list of (class label, verdict, info, e1, e2, scale)."""
@@ -92,6 +99,6 @@ def compare_pair(code1, ex1, code2, ex2, n1, margin, order, scale_hint=0.0,
         e2 = float(np.max(E2[m])) if prefix else float(E2)
         sc = float(np.max(S2[m])) if prefix else float(S2)
         nontrivial = sc > 1e-12 * max(glob, 1e-300)
-        v, info = judge(e1, e2, max(sc, glob), order, lose=lose)
+        v, info = judge(e1, e2, max(sc, glob), order, lose=lose, abs_floor=abs_floor)
         out.append((lab, v, info, e1, e2, sc if nontrivial else 0.0))
     return out
